@@ -18,12 +18,15 @@ def build_ops(R):
     pool += [("generic", "null-phrase", None, b"$1$x"), ("generic", "long", b"y" * 600, b"$1$x"), ("generic", "badchar", b"pw", b"$6$a:b"),
              ("generic", "token", b"pw", b"*0"), ("generic", "unknown", b"pw", b"$zz$")]
     # fixed coverage first, whatever the seed: the FIRST call on an object the application filled (0xff / random / pattern), for every method and
-    # a short and a long phrase, next to the same request on a zeroed object - do_crypt wipes the scratch area on return, so only a first call
+    # phrases of 2, 32, 257 and 511 bytes, next to the same request on a zeroed object - do_crypt wipes the scratch area on return, so only a first call
     # sees foreign contents (seeded/C07b, C04c); the random histories below reach the same situation only by chance
     long_ph = b"a phrase longer than eight bytes"
+    # phrase-length classes: the methods size their scratch use by the phrase (8 / 72 / 256 / 511 are the documented or internal boundaries:
+    # DES key, bcrypt key, NT's UCS-2 buffer half, CRYPT_MAX_PASSPHRASE_SIZE - 1; seeded/C07d needs > 256)
+    ph257 = bytes(0x21 + (i * 7) % 94 for i in range(257)); ph511 = bytes(0x21 + (i * 11) % 94 for i in range(511))
     for m in S.METHODS:
-        for ph in (b"pw", long_ph):
-            for fill in "zfrp":
+        for ph in (b"pw", long_ph, ph257, ph511):
+            for fill in ("zfrp" if len(ph) < 100 else "zfr"):
                 ops.append("O 0 %s %d %d" % (fill, R.rng.randrange(16), R.rng.randrange(1 << 30))); meta.append(("setup", "obj", 0, 0))
                 ops.append(CS.crypt_op("r" if fill in "zf" else "rn", 0, ph, S.CANON[m])); meta.append((m, "first-call-on-filled-object", len(ph), len(S.CANON[m])))
     for h in range(nhist):
